@@ -4,4 +4,4 @@
 package graph
 
 // verifPop is a no-op unless built with the "verif" tag.
-func verifPop(v interface{}, distance int32) {}
+func verifPop(v interface{}, distance int) {}
